@@ -451,6 +451,14 @@ bufferevent_filtered_outbuf_cb(struct evbuffer *buf,
 		 * process it, if we should. */
 		bufferevent_incref_and_lock_(bev);
 		be_filter_process_output(bevf, BEV_NORMAL, &processed_any);
+		/* Output that has to wait starts the write timeout, unless
+		 * it is running already. */
+		if ((bev->enabled & EV_WRITE) &&
+		    !bevf->bev.write_suspended &&
+		    evbuffer_get_length(buf) &&
+		    evutil_timerisset(&bev->timeout_write) &&
+		    !event_pending(&bev->ev_write, EV_TIMEOUT, NULL))
+			BEV_RESET_GENERIC_WRITE_TIMEOUT(bev);
 		bufferevent_decref_and_unlock_(bev);
 	}
 }
